@@ -14,7 +14,7 @@ META = {
              'distance, order); non-trivial = chain with >= 3 greedy steps taken while >= 2 segments competed'),
     'require': {'size': 6000, 'greedy': 3000, 'online-pop-max': 3000, 'nontrivial': 60},
     'scale': {'quick': 1, 'thorough': 45},
-    'quick_cases': 320, 'thorough_cases': 18000,
+    'quick_cases': 960, 'thorough_cases': 18000,
     'assumptions': ['priorities are recomputed with the library\'s own primitives on equal-valued slices (bit-identical)',
                     'the first split (root seed has priority 0) is exempt from the priority clause'],
 }
